@@ -66,7 +66,26 @@ func VH_C06() {
 		vsym.Assert(Do(h, BodyReq("PUT", "/bkt/k", nil, []byte("old"))).Code() == 200, "C06/prior")
 	}
 	meta := vsym.String("meta", 1)
+	// bystanders: another upload of the same key (started before or after
+	// ours) and one of another key; whatever happens to ours leaves them alone
+	otherFirst := vsym.Choice("otherfirst", 2) == 1
+	var other, otherKey string
+	if otherFirst {
+		other = initiate(h, "k", http.Header{"X-Amz-Meta-A": {"other"}})
+	}
 	id := initiate(h, "k", http.Header{"X-Amz-Meta-A": {meta}})
+	if !otherFirst {
+		other = initiate(h, "k", http.Header{"X-Amz-Meta-A": {"other"}})
+	}
+	otherKey = initiate(h, "j", http.Header{})
+	vsym.Assert(uploadPart(h, "k", other, 1, []byte("o1")).Code() == 200, "C06/bystander-part")
+	vsym.Assert(uploadPart(h, "j", otherKey, 3, []byte("j3")).Code() == 200, "C06/bystander-part")
+	bystanders := func(tag string) {
+		po := listParts(h, "k", other, nil).Parts()
+		vsym.Assert(po.OK && len(po.Numbers) == 1 && po.Numbers[0] == 1 && po.ETags[0] == partETag([]byte("o1")), tag+"/bystander-upload-same-key")
+		pj := listParts(h, "j", otherKey, nil).Parts()
+		vsym.Assert(pj.OK && len(pj.Numbers) == 1 && pj.Numbers[0] == 3 && pj.ETags[0] == partETag([]byte("j3")), tag+"/bystander-upload-other-key")
+	}
 	u := &mpu{id: id}
 	nUp := 1 + vsym.Choice("uploads", vsym.Param("maxuploads", 2))
 	for i := 0; i < nUp; i++ {
@@ -154,6 +173,7 @@ func VH_C06() {
 		rq2 := BodyReq("POST", "/bkt/k", nil, CompleteBody(list))
 		rq2.Query = url.Values{"uploadId": {id}}
 		vsym.Assert(Do(h, rq2).ErrCode() == "NoSuchUpload", "C06/second-complete")
+		bystanders("C06/complete")
 	} else {
 		vsym.Reach("C06/rejected")
 		vsym.Assert(!mustAccept, "C06/good-part-list-rejected")
@@ -171,5 +191,12 @@ func VH_C06() {
 		after2 := Do(h, Req{Method: "GET", Path: "/bkt/k"})
 		vsym.Assert(after2.Code() == before.Code() && string(after2.Body) == string(before.Body), "C06/abort-leaves-object")
 		vsym.Assert(listParts(h, "k", id, nil).ErrCode() == "NoSuchUpload", "C06/abort-removes-upload")
+		bystanders("C06/abort")
+		// the bystander on the same key can still be completed
+		rqo := BodyReq("POST", "/bkt/k", nil, CompleteBody([]gofakes3.CompletedPart{{PartNumber: 1, ETag: partETag([]byte("o1"))}}))
+		rqo.Query = url.Values{"uploadId": {other}}
+		vsym.Assert(Do(h, rqo).Code() == 200, "C06/bystander-completes")
+		go1 := Do(h, Req{Method: "GET", Path: "/bkt/k"})
+		vsym.Assert(go1.Code() == 200 && string(go1.Body) == "o1" && go1.Hdr.Get("X-Amz-Meta-A") == "other", "C06/bystander-object")
 	}
 }
